@@ -314,6 +314,21 @@ def predicates(ctx: Ctx) -> None:
         if not np.allclose(H, refH, rtol=1e-6, atol=1e-6):
             ctx.fail("coded-hessian:Camelback", f"Camelback.hessian({x.tolist()}) = {H.tolist()} but the "
                      f"derivative of the gradient is {refH.tolist()}", {"x": x.tolist()})
+    # what was returned for one point stays the derivative at that point after the surface is evaluated elsewhere
+    # (a caller keeps the Hessians / gradients of several stationary points side by side)
+    for _ in range(ctx.scale(10, 60) * deep):
+        x1 = np.array([rng.uniform(-2.5, 2.5), rng.uniform(-1.8, 1.8)])
+        x2 = np.array([rng.uniform(-2.5, 2.5), rng.uniform(-1.8, 1.8)])
+        H1, g1 = cam.hessian(x1.copy()), cam.gradient(x1.copy())
+        H1_then, g1_then = np.array(H1, copy=True), np.array(g1, copy=True)
+        cam.hessian(x2.copy()); cam.gradient(x2.copy()); cam.function(x2.copy())
+        ctx.stats.case({"pred": "camel-results-independent", "x1": x1.tolist(), "x2": x2.tolist()}, True)
+        if not (np.array_equal(H1, H1_then) and np.array_equal(g1, g1_then)):
+            ctx.fail("coded-hessian:Camelback:earlier-result-overwritten",
+                     f"the Hessian / gradient returned for {x1.tolist()} changed when the surface was evaluated at "
+                     f"{x2.tolist()}: it was {H1_then.tolist()} and now reads {np.asarray(H1).tolist()}",
+                     {"x1": x1.tolist(), "x2": x2.tolist()})
+            break
     for _ in range(ctx.scale(20, 150) * deep):
         n = rng.randrange(2, 9)
         x = np.array(lj_points(rng, n)) * rng.uniform(0.9, 1.3)
